@@ -194,10 +194,24 @@ def run(ctx):
                                   {"setting": sg.number, "texts": texts}, key="find-text:%s" % sg.number)
                     break
         # sub/super lists that are not tabulated sets must fail
-        for kind in ("drop", "add"):
+        for kind in ("drop", "add") + tuple("flip%d" % e for e in range(9)) + ("shift",):
             if kind == "drop" and len(ops) > 1:
                 k = ctx.rng.randrange(len(ops))
                 cand = ops[:k] + ops[k + 1:]
+            elif kind.startswith("flip"):
+                # one rotation entry of one operation changed (sign flipped, or 0 -> 1)
+                e = int(kind[4:])
+                ks = [k for k in range(len(ops)) if ops[k][0][e] != 0] or [0]
+                k = ctx.rng.choice(ks)
+                R = list(ops[k][0])
+                R[e] = -R[e] if R[e] else 1
+                cand = ops[:k] + [(tuple(R), ops[k][1])] + ops[k + 1:]
+            elif kind == "shift":
+                k = ctx.rng.randrange(len(ops))
+                t = list(ops[k][1])
+                j = ctx.rng.randrange(3)
+                t[j] = (t[j] + sglive.TS // 12 * ctx.rng.choice([1, 2, 3, 4, 6])) % sglive.TS
+                cand = ops[:k] + [(ops[k][0], tuple(t))] + ops[k + 1:]
             else:
                 cand = ops + [ctx.rng.choice(allops)]
             if frozenset(cand) in setsig and len(set(cand)) == len(cand):
